@@ -19,9 +19,11 @@
    order, any order), a RetryInfo delay has less than 2^63 seconds and less than 10^9
    nanoseconds - this includes the whole protobuf range [c20_protobuf_range].
    [fits_c code msg ds]: the encoded google.rpc.Status is at most usize::MAX bytes long.
-   [something_attached code msg ds]: the code is not OK, or there is a message, or a detail; the
-   alternative premise "the user metadata has no grpc-status-details-bin entry of its own" is only
-   needed when nothing at all is attached ([c20_own_details_entry_travels] says what happens then). *)
+   The round trips hold for EVERY user metadata: since fix ed827503 (finding F-C04e) a
+   grpc-status-details-bin entry of the caller's own never matters - with something attached it is
+   replaced by the attached details, with nothing at all attached (empty details bytes) the header
+   is removed ([c20_own_details_entry_dropped]); before the fix the premise "no such entry, or
+   something attached" was needed. *)
 From Verif Require Import Lib.Bytes Lib.Base64 Lib.Utf8 Lib.HeaderMap.
 From Verif Require Import Gen.StatusTables Gen.RichErrorTables Model.Status Model.ProtoWire Model.RichError.
 From Verif Require Import Proofs.Status Proofs.ProtoWire Proofs.RichError.
@@ -34,7 +36,6 @@ Open Scope N_scope.
 Theorem c20_details_set_roundtrip : forall code message ed md,
   is_code code = true -> utf8_valid message = true -> bytes_ok message = true ->
   ed_ok ed -> fits_c code message (pushed ed) ->
-  hm_get_all md hdr_grpc_status_details = [] \/ something_attached code message (pushed ed) ->
   exists st m st',
     with_error_details_c code message ed md = Ok st /\
     to_header_map st = Some m /\ from_header_map m = Some st' /\
@@ -50,7 +51,6 @@ Proof. exact details_set_roundtrip. Qed.
 Theorem c20_details_vec_roundtrip : forall code message ds md,
   is_code code = true -> utf8_valid message = true -> bytes_ok message = true ->
   Forall detail_ok ds -> fits_c code message ds ->
-  hm_get_all md hdr_grpc_status_details = [] \/ something_attached code message ds ->
   exists st m st',
     with_error_details_vec_c code message ds md = Ok st /\
     to_header_map st = Some m /\ from_header_map m = Some st' /\
@@ -64,7 +64,6 @@ Proof. exact details_vec_roundtrip. Qed.
 Theorem c20_embedded_status_matches_outer : forall code message ds md,
   is_code code = true -> utf8_valid message = true -> bytes_ok message = true ->
   Forall detail_ok ds -> fits_c code message ds ->
-  hm_get_all md hdr_grpc_status_details = [] \/ something_attached code message ds ->
   exists st m st' ps,
     with_error_details_vec_c code message ds md = Ok st /\
     to_header_map st = Some m /\ from_header_map m = Some st' /\
@@ -80,7 +79,6 @@ Proof. exact embedded_status_matches_outer. Qed.
 Theorem c20_metadata_kept : forall code message ds md,
   is_code code = true -> utf8_valid message = true -> bytes_ok message = true ->
   Forall detail_ok ds -> fits_c code message ds ->
-  hm_get_all md hdr_grpc_status_details = [] \/ something_attached code message ds ->
   exists st m st',
     with_error_details_vec_c code message ds md = Ok st /\ st_md st = md /\
     to_header_map st = Some m /\ from_header_map m = Some st' /\
@@ -98,26 +96,26 @@ Proof. exact with_error_details_is_vec. Qed.
 Theorem c20_built_set_roundtrip : forall code message ops md,
   is_code code = true -> utf8_valid message = true -> bytes_ok message = true ->
   Forall bop_ok ops -> fits_c code message (pushed (ed_build ops)) ->
-  hm_get_all md hdr_grpc_status_details = [] \/ something_attached code message (pushed (ed_build ops)) ->
   exists st m st',
     with_error_details_c code message (ed_build ops) md = Ok st /\
     to_header_map st = Some m /\ from_header_map m = Some st' /\
     check_error_details_c st' = Ok (ed_build ops) /\ get_error_details_c st' = Ok (ed_build ops).
 Proof. exact built_roundtrip. Qed.
 
-(* Observation, outside the property's quantifier: nothing at all attached (code OK, no message, no
-   details: the details bytes are empty) and a grpc-status-details-bin entry of the caller's own in
-   the metadata - the first value of that entry is what the status read back has as details *)
-Theorem c20_own_details_entry_travels : forall md v rest,
+(* The former observation F-C04e (fixed by commit ed827503), now inside the round trips above:
+   nothing at all attached (code OK, no message, no details: the details bytes are empty) and a
+   grpc-status-details-bin entry of the caller's own in the metadata - the written map has no
+   details header, the status read back has NO details (before the fix: the first value of that
+   entry, base64-decoded) and the entry itself is not delivered *)
+Theorem c20_own_details_entry_dropped : forall md v rest,
   hm_get_all md hdr_grpc_status_details = v :: rest ->
   exists st m st',
     with_error_details_vec_c 0 [] [] md = Ok st /\ st_details st = [] /\
     to_header_map st = Some m /\ from_header_map m = Some st' /\
-    match Base64.dec v with
-    | Some d => st_code st' = 0 /\ st_msg st' = [] /\ st_details st' = d
-    | None => st_code st' = Code_Unknown /\ st_details st' = []
-    end.
-Proof. exact own_details_entry_travels. Qed.
+    hm_get_all m hdr_grpc_status_details = [] /\
+    st_code st' = 0 /\ st_msg st' = [] /\ st_details st' = [] /\
+    hm_get_all (st_md st') hdr_grpc_status_details = [].
+Proof. exact own_details_entry_dropped. Qed.
 
 (* ---- decode side: arbitrary bytes as details ------------------------------------------------ *)
 (* for EVERY status (any details bytes whatsoever): no getter panics; check_* say Ok or Err; get_*
@@ -287,7 +285,7 @@ Print Assumptions c20_metadata_kept.
 Print Assumptions c20_decode_total.
 Print Assumptions c20_wire_roundtrip.
 Print Assumptions c20_message_roundtrip_any_table.
-Print Assumptions c20_own_details_entry_travels.
+Print Assumptions c20_own_details_entry_dropped.
 Print Assumptions c20_payload_roundtrip.
 
 (* the shapes of the source the model was written against, regenerated by rs2v on every run:
